@@ -832,3 +832,14 @@ VARIANTS += [
 VARIANTS += [
     V('C20-M24', 'M', ('C20',), CX, 'SpawnProcess.start', r'\n\s+self\._logger_queue_\.put\(_LOGGER_QUEUE_WARMUP\)', '', ('C20-5',), note='D18 shape: the end marker is the first put on the log queue'),
 ]
+
+# ---------------------------------------------------------------------- rules added after the third round (second half) and the fourth
+VARIANTS += [
+    V('C08-M20', 'M', ('C08', 'C01', 'C03', 'C05', 'C18'), QS, 'SingleLane.put', r'if 0 < self\.maxsize <= len\(self\._queue\):', 'if 0 < self.maxsize < len(self._queue):', ('C01-4', 'C08-5', 'C03-8', 'C05-8', 'C18-11'), note='seeded C08-r3m2 shape'),
+    V('C20-M25', 'M', ('C20',), CX, 'SpawnProcess.run', r'root\.setLevel\(logging\.DEBUG\)', 'root.setLevel(logging.INFO)', ('C20-2',), note='seeded C20-r3m2 shape'),
+    V('C20-M26', 'M', ('C20',), CX, 'SpawnProcess._close_logger', r'multiprocessing\.connection\.wait\(\[sentinel\]\)', 'multiprocessing.connection.wait([sentinel], timeout=5)', ('C20-1',), note='seeded C20-r3m1 shape'),
+    V('C09-E22', 'E', ALL, WK, 'Worker._get_input_batch', r'buffer\.get\(timeout=max\(0, t\)\)', 'buffer.get(timeout=t)', note='half of seeded C09-r4m1: harmless alone, SingleLane hands a negative timeout to Condition.wait, which returns at once'),
+    V('C19-M23', 'M', ('C19',), ST, 'EagerBatcher.__iter__', r'q_in\.get\(timeout=max\(0, t\)\)', 'q_in.get(timeout=t)', ('C19-3',), note='queue.Queue raises ValueError on a negative timeout'),
+    V('C09-M27', 'M', ('C09', 'C04'), WK, 'Worker._build_input_batches', r"preprocess = getattr\(self, 'preprocess', None\)", 'preprocess = self._preprocess', ('C09-9', 'C04-9'), note='seeded C09-r4m2 / C04-r4m1 shape (cached hook)'),
+    V('C06-M26', 'M', ('C06',), SV, 'Server._enqueue', r"(\n        )fut\.data\['t1'\] = perf_counter\(\)", r"\1fut.data['t1'] = perf_counter()\1fut.data['deadline'] = fut.data['t1'] + timeout", ('C06-12',), note='seeded C06-r4m1 shape: deadline re-anchored after admission'),
+]
